@@ -49,7 +49,10 @@ def treehash():
         h.update(b"\0")
         with open(p, "rb") as fh:
             h.update(hashlib.sha256(fh.read()).digest())
-    # the extractor itself is part of the key
+    # witness grammars and the extractors are part of the key
+    for wf in sorted(glob.glob(os.path.join(VERIF, "fixtures", "grammars", "*.rustemo"))):
+        with open(wf, "rb") as fh:
+            h.update(os.path.basename(wf).encode() + hashlib.sha256(fh.read()).digest())
     for tool in (os.path.join(MIRFACTS_DIR, "src", "main.rs"),
                  os.path.join(SYNFACTS_DIR, "src", "main.rs")):
         if os.path.exists(tool):
@@ -169,15 +172,19 @@ GEN_BODIES = ",".join([
 def _extract_gen(scratch, outdir, arrays):
     """Workspace build with the dump hook on; collects table dumps, generated
     sources, rustc diagnostics and (body-filtered) MIR facts."""
-    mir = os.path.join(outdir, "mir")
     tables = os.path.join(outdir, "tables")
     files = os.path.join(outdir, "files")
-    for d in (mir, tables, files):
+    for d in (tables, files):
         os.makedirs(d, exist_ok=True)
-    env = _cargo_env(scratch, mir, hook=True, extra={
-        "RUSTEMO_VERIF_DUMP_DIR": tables, "MIRFACTS_BODIES": GEN_BODIES})
-    cmd = ["cargo", "+nightly", "check", "--offline", "--workspace", "--all-targets",
-           "--message-format=json"]
+    # plain type-check with the default (stable) toolchain, the one users build with; no MIR export needed here
+    env = dict(os.environ)
+    env["CARGO_NET_OFFLINE"] = "true"
+    env["RUSTFLAGS"] = "--cfg rustemo_verif -Awarnings"
+    env["CARGO_TARGET_DIR"] = scratch.target + ("-gen")
+    env["RUSTEMO_VERIF_DUMP_DIR"] = tables
+    env.pop("RUSTEMO_TRACE", None)
+    env.pop("RUSTC_WORKSPACE_WRAPPER", None)
+    cmd = ["cargo", "check", "--offline", "--workspace", "--all-targets", "--message-format=json"]
     feats = arrays_features()
     if arrays:
         if not feats:
@@ -217,8 +224,8 @@ def _extract_gen(scratch, outdir, arrays):
             rel = p
             if p and p.startswith(scratch.src + "/"):
                 rel = "src:" + p[len(scratch.src) + 1:]
-            elif p and p.startswith(scratch.target + "/"):
-                rel = "target:" + _strip_hash(p[len(scratch.target) + 1:])
+            elif p and p.startswith(scratch.target + "-gen/"):
+                rel = "target:" + _strip_hash(p[len(scratch.target) + 5:])
             entry[key + "_rel"] = rel
         index.append(entry)
     json.dump(index, open(os.path.join(outdir, "index.json"), "w"), indent=1)
@@ -233,7 +240,101 @@ def _strip_hash(p):
     return p
 
 
-SETS = ("core", "gen-functions", "gen-arrays")
+SETS = ("core", "gen-functions", "gen-arrays", "witness")
+WITNESS_DIR = os.path.join(VERIF, "fixtures", "grammars")
+
+
+def _extract_witness(scratch, outdir):
+    """Builds rcomp (hook on) from the scratch copy, runs it over the fixed witness grammars
+    (fixtures/grammars/*.rustemo, configurations in their `// args:` header lines), collects dumps and
+    generated files, and type-checks the generated code in a throw-away crate."""
+    tables = os.path.join(outdir, "tables")
+    files = os.path.join(outdir, "files")
+    for d in (tables, files):
+        os.makedirs(d, exist_ok=True)
+    env = dict(os.environ)
+    env["CARGO_NET_OFFLINE"] = "true"
+    env["RUSTFLAGS"] = "--cfg rustemo_verif -Awarnings"
+    env["CARGO_TARGET_DIR"] = scratch.target + "-gen"
+    env.pop("RUSTEMO_TRACE", None)
+    env.pop("RUSTC_WORKSPACE_WRAPPER", None)
+    r = _run(["cargo", "build", "--offline", "-p", "rustemo-compiler", "--bin", "rcomp"], scratch.src, env, "witness: build rcomp")
+    if r.returncode != 0:
+        raise ToolError("rcomp does not build:\n" + r.stderr[-3000:])
+    rcomp = os.path.join(env["CARGO_TARGET_DIR"], "debug", "rcomp")
+    index = []
+    crate = os.path.join(scratch.dir, "wcrate")
+    os.makedirs(os.path.join(crate, "src"))
+    mods = []
+    n = 0
+    for gpath in sorted(glob.glob(os.path.join(WITNESS_DIR, "*.rustemo"))):
+        base = os.path.basename(gpath)[:-len(".rustemo")]
+        text = open(gpath).read()
+        configs = [l[len("// args:"):].split() for l in text.splitlines() if l.startswith("// args:")] or [[]]
+        for k, args in enumerate(configs):
+            modname = "w_%s_%d" % (base, k)
+            wdir = os.path.join(crate, "src", modname)
+            os.makedirs(wdir)
+            shutil.copyfile(gpath, os.path.join(wdir, base + ".rustemo"))
+            tdir = os.path.join(tables, modname)
+            e2 = dict(env, RUSTEMO_VERIF_DUMP_DIR=tdir)
+            rr = subprocess.run([rcomp] + args + [os.path.join(wdir, base + ".rustemo")], env=e2, capture_output=True,
+                                text=True, cwd=wdir)
+            serves = " ".join(l[len("// for:"):] for l in text.splitlines() if l.startswith("// for:")).split()
+            entry = {"witness": base, "config": args, "module": modname, "serves": serves, "rc": rr.returncode,
+                     "panicked": "panicked at" in rr.stderr, "not_generated": "Parser(s) not generated" in rr.stdout,
+                     "stdout_tail": rr.stdout[-600:], "stderr_tail": rr.stderr[-600:]}
+            dumps = sorted(glob.glob(os.path.join(tdir, "*.table.json")))
+            if dumps:
+                dst = "%s.table.json" % modname
+                shutil.copyfile(dumps[0], os.path.join(tables, dst))
+                entry["table"] = dst
+                for key, suffix in (("parser_file", ".rs"), ("actions_file", "_actions.rs")):
+                    pth = os.path.join(wdir, base + suffix)
+                    if os.path.exists(pth):
+                        fn = "%s.%s.rs" % (modname, "parser" if key == "parser_file" else "actions")
+                        shutil.copyfile(pth, os.path.join(files, fn))
+                        entry[key] = fn
+                        entry[key + "_rel"] = "witness:%s/%s%s" % (modname, base, suffix)
+                builder = "Default"
+                if "--builder-type" in args:
+                    builder = args[args.index("--builder-type") + 1]
+                if "custom" not in [a.lower() for a in args]:
+                    decl = "pub mod %s { #![allow(warnings)] pub mod %s;" % (modname, base)
+                    if os.path.exists(os.path.join(wdir, base + "_actions.rs")):
+                        decl += " pub mod %s_actions;" % base
+                    decl += " }"
+                    mods.append(decl)
+            shutil.rmtree(tdir, ignore_errors=True)
+            index.append(entry)
+            n += 1
+    # type-check all generated witness parsers in one crate
+    with open(os.path.join(crate, "Cargo.toml"), "w") as f:
+        f.write('[package]\nname = "wcrate"\nversion = "0.0.0"\nedition = "2021"\n[workspace]\n[dependencies]\n'
+                'rustemo = { path = "%s/rustemo" }\n' % scratch.src)
+    shutil.copyfile(os.path.join(scratch.src, "Cargo.lock"), os.path.join(crate, "Cargo.lock"))
+    with open(os.path.join(crate, "src", "lib.rs"), "w") as f:
+        f.write("\n".join(mods) + "\n")
+    r = _run(["cargo", "check", "--offline", "--message-format=json"], crate, env, "witness: cargo check")
+    diags = []
+    for line in r.stdout.splitlines():
+        if not line.startswith("{"):
+            continue
+        try:
+            m = json.loads(line)
+        except ValueError:
+            continue
+        if m.get("reason") == "compiler-message" and m["message"].get("level") == "error":
+            msg = m["message"]
+            spans = [s for s in msg.get("spans", []) if s.get("is_primary")] or msg.get("spans", [])
+            fn = spans[0]["file_name"] if spans else ""
+            mod = fn.split("/")[1] if fn.startswith("src/") and "/" in fn[4:] else None
+            diags.append({"module": mod, "file": fn, "line": spans[0]["line_start"] if spans else None,
+                          "code": (msg.get("code") or {}).get("code"), "message": msg.get("message"),
+                          "rendered": (msg.get("rendered") or "")[:1200]})
+    json.dump({"rc": r.returncode, "errors": diags, "stderr_tail": r.stderr[-2000:]},
+              open(os.path.join(outdir, "build.json"), "w"), indent=1)
+    json.dump(index, open(os.path.join(outdir, "index.json"), "w"), indent=1)
 
 
 def ensure(sets):
@@ -260,6 +361,8 @@ def ensure(sets):
                         _extract_gen(sc, out, arrays=False)
                     elif s == "gen-arrays":
                         _extract_gen(sc, out, arrays=True)
+                    elif s == "witness":
+                        _extract_witness(sc, out)
                     else:
                         raise ToolError("unknown fact set " + s)
                     open(os.path.join(out, ".done"), "w").write(str(time.time()))
